@@ -124,3 +124,16 @@ def resolution_of(uni):
         return 8 * eps * np.maximum(np.where(np.isfinite(x), np.abs(x), 0.0), mag)
 
     return delta
+
+
+def tau_band_bernstein(n, tau, alpha=ALPHA_I):
+    """Bernstein-type bound for the Kendall U-statistic (Hoeffding 1963, eq. 5.7 applied to the average of floor(n/2)
+    independent kernels with values in [-1,1] and variance <= 1 - tau^2):
+    P(|tau_n - tau| >= t) <= 2 exp(-k t^2 / (2 sigma^2 + (4/3) t)).  Never worse than the plain Hoeffding band."""
+    k = n // 2
+    L = math.log(2.0 / alpha)
+    s2 = max(1.0 - tau * tau, 0.0)
+    # solve k t^2 = L (2 s2 + 4 t / 3)
+    a, b, c = k, -4.0 * L / 3.0, -2.0 * L * s2
+    t = (-b + math.sqrt(b * b - 4 * a * c)) / (2 * a)
+    return min(t, tau_band(n, alpha))
